@@ -665,6 +665,10 @@ def oracle_case(ctx: Ctx, spec: dict, R: str, res: dict) -> None:
                         key = KEY_DOTDOT if dotdot else f'confined:{name}'
                         ctx.violation(key, f'path outside DESTDIR written: {os.path.relpath(p, R)} (DESTDIR {os.path.relpath(dd, R)})', case)
                         break
+            if dotdot and dd and st['err'] == 'ERR:Meson' and 'outside of DESTDIR' in st['detail'] and \
+                    all(under(dest_of(spec, op, R, ip), dd) for ip in all_dest_strings(spec, R)):
+                ctx.violation(f'refuses-inside-destdir:{name}', 'every documented destination lies inside DESTDIR, yet the '
+                              f'install was refused: {st["detail"][:120]}', case)
             if not dotdot:
                 # --- exactness, destinations, modes, tags (clean cases, first install on the fresh destination)
                 if st['err'] == 'ok' and not op.get('dry') and not op.get('only') and real_installs == 0:
@@ -993,19 +997,53 @@ def gen_case(rng: random.Random, idx: int, kind: str) -> dict:
     return spec
 
 
-def dotdot_case(rng: random.Random, idx: int) -> dict:
-    spec = gen_case(rng, idx, 'clean')
-    spec['name'] = f'dotdot-{idx}'
-    spec['clean'] = False
-    spec['prefix'] = '{P}/usr'
-    for op in spec['ops']:
-        if op['op'] == 'install':
-            op['destdir'] = '{R}/a/b/c/dest'
-    spec['tree'].append(['f', 'src/dd.txt', 0o644, 'dotdot', 1_500_000_000])
-    spec['data'] = spec.get('data', []) + [{'path': '{R}/src/dd.txt', 'ip': rng.choice(
-        ['share/../../../../outside/d.txt', '{P}-abs/etc/../../../outside2/d.txt', 'share/../../../../escape.txt',
-         '../x/../../../../up/d.txt', 'share/../../../in-destdir.txt']),
-        'mode': None, 'sub': '', 'tag': None, 'follow': None}]
+def escape_targets(base: str) -> T.List[str]:
+    """where a `..` climb out of DESTDIR may land, named after DESTDIR itself: siblings sharing its name as a string
+    prefix, the name with a trailing separator, a proper prefix of the name, DESTDIR itself, its parent, further up,
+    and an unrelated name"""
+    return [base + '-x', base + 'x', base + '.d', base + '/', base[:max(1, len(base) // 2)], base, '', '..', 'unrelated']
+
+
+def dotdot_case(rng: random.Random, idx: int, kind: T.Optional[str] = None, target: T.Optional[str] = None,
+                absolute: T.Optional[bool] = None) -> dict:
+    """one rule of one kind whose install dir climbs with `..` towards DESTDIR's parent, relative or absolute"""
+    t0 = 1_500_000_000
+    dd = rng.choice(['{R}/a/b/c/dest', '{R}/a/b/stage', '{R}/a/x y/d e s t'])
+    prefix = rng.choice(['{P}/usr', '{P}'])
+    base = os.path.basename(dd)
+    kind = kind or rng.choice(['data', 'headers', 'man', 'emptydirs', 'symlinks', 'subdirs', 'targets'])
+    tgts = escape_targets(base)
+    target = target if target is not None else rng.choice(tgts)
+    absolute = rng.random() < 0.4 if absolute is None else absolute
+    depth = len([c for c in prefix.split('/') if c])
+    if absolute:
+        d = '/' + '../' * rng.choice([1, 1, 2]) + target + '/etc'
+    else:
+        d = 'share/' + '../' * (depth + 2) + target + '/etc'
+    d = d.replace('//', '/') if target == '' else d
+    spec: dict = {'name': f'dotdot-{idx}', 'clean': False, 'fresh': True, 'umask': 0o022, 'prefix': prefix,
+                  'tree': [['f', 'src/dd.txt', 0o644, 'dotdot', t0], ['f', 'build/tgt', 0o755, 'tgt', t0],
+                           ['d', 'src/ddtree', 0o755], ['f', 'src/ddtree/in.txt', 0o644, 'in', t0]]}
+    for k in ('subdirs', 'targets', 'headers', 'man', 'data', 'emptydirs', 'symlinks'):
+        spec[k] = []
+    cf = {'mode': None, 'sub': '', 'tag': None}
+    if kind == 'data':
+        spec['data'] = [{'path': '{R}/src/dd.txt', 'ip': d + '/d.txt', 'follow': None, **cf}]
+    elif kind == 'man':
+        spec['man'] = [{'path': '{R}/src/dd.txt', 'ip': d + '/d.1', **cf}]
+    elif kind == 'headers':
+        spec['headers'] = [{'path': '{R}/src/dd.txt', 'ip': d, 'follow': None, **cf}]
+    elif kind == 'targets':
+        spec['targets'] = [{'path': '{R}/build/tgt', 'ip': d, **cf}]
+    elif kind == 'emptydirs':
+        spec['emptydirs'] = [{'ip': d + '/empty', **cf}]
+    elif kind == 'symlinks':
+        spec['symlinks'] = [{'target': 't', 'name': d + '/lnk', 'ip': d, 'sub': '', 'tag': None}]
+    else:
+        ip = d if d.startswith('/') else jn(prefix, d)       # the backend hands install_subdir an absolute path
+        spec['subdirs'] = [{'path': '{R}/src/ddtree', 'ip': ip, 'exclude': None, 'follow': None, **cf}]
+    spec['ops'] = [{'op': 'install', 'destdir': dd, 'ambient': 0o022}]
+    spec['escape'] = {'kind': kind, 'target': target, 'absolute': absolute}
     return spec
 
 
@@ -1021,6 +1059,13 @@ def corpus_cases() -> T.List[dict]:
     out.append({**base, 'name': 'corpus-dotdot-abs', 'tree': [['f', 'src/d.txt', 0o644, 'd', t0]],
                 'data': [{'path': '{R}/src/d.txt', 'ip': '{P}-abs/etc/../../../outside/d.txt', 'mode': None, 'sub': '', 'tag': None}],
                 'ops': [inst]})
+    # `..` into a sibling of DESTDIR whose name starts with DESTDIR's name (component-wise, not character-wise!)
+    out.append({**base, 'name': 'corpus-dotdot-sibling-rel', 'tree': [['f', 'src/d.txt', 0o644, 'd', t0]],
+                'data': [{'path': '{R}/src/d.txt', 'ip': 'share/../../../../stage-extra/etc/d.txt', 'mode': None, 'sub': '', 'tag': None}],
+                'ops': [dict(inst, destdir='{R}/t/stage')]})
+    out.append({**base, 'name': 'corpus-dotdot-sibling-abs', 'tree': [['f', 'src/d.txt', 0o644, 'd', t0]],
+                'data': [{'path': '{R}/src/d.txt', 'ip': '/../stage.d/x/d.txt', 'mode': None, 'sub': '', 'tag': None}],
+                'ops': [dict(inst, destdir='{R}/t/stage')]})
     # uninstall and names with trailing white space
     out.append({**base, 'name': 'corpus-trailing-space', 'tree': [['f', 'src/d.txt', 0o644, 'd', t0]],
                 'data': [{'path': '{R}/src/d.txt', 'ip': 'share/x ', 'mode': None, 'sub': '', 'tag': None},
@@ -1130,6 +1175,24 @@ def compare_model(ctx: Ctx, spec: dict, res: dict, R: str, answers: T.List[str])
             return
 
 
+def oracle_gdp(destdir: str, prefix: str, ip: str, returned: T.Optional[str]) -> T.Optional[str]:
+    """`writes only beneath DESTDIR`, on get_destdir_path itself (model-independent, component-wise):
+    a returned path lies in DESTDIR; a documented destination that lies in DESTDIR is not refused"""
+    from pathlib import PurePosixPath
+    root = PurePosixPath(os.path.normpath(destdir)).parts
+    if returned is not None:
+        got = PurePosixPath(os.path.normpath(returned)).parts
+        if got[:len(root)] != root:
+            return f'get_destdir_path returned {returned!r}, which is not beneath DESTDIR {destdir!r}'
+        return None
+    doc = os.path.normpath(destdir + '/' + ip) if ip.startswith('/') else os.path.normpath(destdir + '/' + prefix + '/' + ip)
+    docparts = PurePosixPath('/' + doc.lstrip('/')).parts
+    rootn = PurePosixPath('/' + os.path.normpath(destdir).lstrip('/')).parts
+    if docparts[:len(rootn)] == rootn:
+        return f'the documented destination {doc!r} lies in DESTDIR {destdir!r}, yet get_destdir_path refused it'
+    return None
+
+
 # ------------------------------------------------------------------ unit streams (path algebra, permissions, selection)
 
 def unit_stream(ctx: Ctx) -> None:
@@ -1161,18 +1224,27 @@ def unit_stream(ctx: Ctx) -> None:
         except MesonException:
             w = 'ERR:Meson'
         lines.append(f'gdp {enc(a)}|{enc(b)}|{enc(c)}'); want.append(w)
-        if rng.random() < 0.3:
-            # the staging check on realistic shapes: DESTDIR d, prefix under it, install dirs with `..`
-            d = rng.choice(['/d', '/d/e', '//d', '/d/', '/d/./e', 'd', '/'])
-            fp = destdir_join(d, rng.choice(['/usr', '/', '/usr/local', '//p']))
-            ip = '/'.join(rng.choice(['..', '..', 'a', 'b', '.', '']) for _ in range(rng.randint(1, 5)))
+        if rng.random() < 0.5:
+            # the staging check on realistic shapes: DESTDIR d, prefix under it, install dirs with `..` whose landing
+            # names are derived from DESTDIR's own name
+            d = rng.choice(['/d', '/d/e', '//d', '/d/', '/d/./e', '/t/stage', '/t/d e s t', '/'])
+            pfx = rng.choice(['/usr', '/', '/usr/local', '//p'])
+            fp = destdir_join(d, pfx)
+            dbase = os.path.basename(os.path.normpath(d)) or 'r'
+            comps = ['..', '..', '..', 'a', '.', ''] + escape_targets(dbase)
+            ip = '/'.join(rng.choice(comps) for _ in range(rng.randint(1, 6)))
             if rng.random() < 0.3:
                 ip = '/' + ip
             try:
-                w = enc(minstall.get_destdir_path(d, fp, ip))
+                r = minstall.get_destdir_path(d, fp, ip)
+                w = enc(r)
             except MesonException:
+                r = None
                 w = 'ERR:Meson'
             lines.append(f'gdp {enc(d)}|{enc(fp)}|{enc(ip)}'); want.append(w)
+            msg = oracle_gdp(d, pfx, ip, r)
+            if msg:
+                ctx.violation(f'gdp:{d}:{pfx}:{ip}', msg, {'destdir': d, 'prefix': pfx, 'install_path': ip, 'returned': r})
     # permission strings: every well-formed one, and damaged ones
     pos = ['r-', 'w-', 'xsS-', 'r-', 'w-', 'xsS-', 'r-', 'w-', 'xtT-']
     perms = [''.join(t) for t in itertools.product(*pos)]
@@ -1304,12 +1376,13 @@ def run(ctx: Ctx) -> None:
     ctx.rule = ('a case is a plan (InstallData) + scratch tree + history of install/reinstall/--only-changed/--dry-run/'
                 'uninstall; it is non-trivial when some step raised or the history has more than one step; '
                 'counted distinct by (case, outcome signature)')
-    unit_stream(ctx)
     cases = make_cases(ctx)
     results = execute(ctx, cases)
     judge(ctx, results)
     # second stream: build definition -> meson setup -> meson install, judged against Installing.md
     c11_e2e.run_stream(ctx, scratch_base, ctx.scale(28, 250))
+    # pure functions last (so that a failing input from a real installation is reported first)
+    unit_stream(ctx)
     ctx.assumptions += TRUSTED
 
 
